@@ -33,7 +33,7 @@ def _case(draw):
     bearing = draw(st.one_of(gen.spread(0.0, 359.999, bins=8), gen.spread(0.0, 359.999, bins=8), gen.spread(0.0, 359.999, bins=8),
                              st.sampled_from([0.0, 90.0, 180.0, 270.0])))
     return {"ref_lat": ref_lat, "ref_lon": ref_lon, "dist": dist, "bearing": bearing,
-            "extra": draw(st.lists(st.tuples(gen.fl(-5000.0, 5000.0), gen.fl(-5000.0, 5000.0)), min_size=0, max_size=4))}
+            "extra": draw(st.lists(st.tuples(gen.fl(-5000.0, 5000.0), gen.fl(-5000.0, 5000.0)), min_size=0, max_size=5))}
 
 
 def strategy(tier):
@@ -70,6 +70,19 @@ def check_case(case):
         xs, ys = xs0, ys0
     if lats is xs or lons is ys or lats is ys or lons is xs:
         out.bad("xy_to_latlon returned one of its argument arrays")
+    # 2-D arrays of scattered points (not a meshgrid): element-wise like everything else
+    if len(pts) >= 2:
+        m = len(pts) // 2 * 2
+        x2 = xs0[:m].reshape(2, m // 2)
+        y2 = ys0[:m].reshape(2, m // 2)
+        la2d, lo2d = xy_to_latlon(x2, y2, rl, ro)
+        la1d, lo1d = xy_to_latlon(xs0[:m].copy(), ys0[:m].copy(), rl, ro)
+        if np.shape(la2d) != x2.shape or not (np.array_equal(np.ravel(la2d), la1d) and np.array_equal(np.ravel(lo2d), lo1d)):
+            out.bad(f"xy_to_latlon on a {x2.shape} array of scattered points differs from the element-wise result")
+        x2t, y2t = np.ascontiguousarray(x2.T), np.ascontiguousarray(y2.T)
+        la2t, lo2t = xy_to_latlon(x2t, y2t, rl, ro)
+        if np.shape(la2t) != x2t.shape or not (np.array_equal(la2t, np.asarray(la2d).T) and np.array_equal(lo2t, np.asarray(lo2d).T)):
+            out.bad("xy_to_latlon on the transposed 2-D arrays is not the transposed result")
     same = np.array([p[0] for p in pts])
     la2, lo2 = xy_to_latlon(same, same, rl, ro)  # one array for both coordinates
     la3, lo3 = xy_to_latlon(same.copy(), same.copy(), rl, ro)
